@@ -902,7 +902,9 @@ Definition ed_select (e : editor') (n : nat) : outcome (editor' * bool) :=
     do r <- selecting_select_offset (sh e) pg act sel n;
     let '(s2, t, pg', sel') := r in
     let '(s3, st3) := apply_transition s2 (Selecting pg' act sel') t in
-    do s4 <- (if behavior_eqb (last s3) BAbsorb then try_auto_commit s3 else Ok s3);
+    (* fix c8fcd57: as in process_keyevent only when the list was closed; the pinned tree also shortened the
+       buffer under a list that stayed open (symbol category -> sub-table) *)
+    do s4 <- (if is_entering st3 && behavior_eqb (last s3) BAbsorb then try_auto_commit s3 else Ok s3);
     Ok (mkEditor s4 st3, negb (behavior_eqb (last s4) BBell))
   | _ => Ok (e, false)
   end.
